@@ -44,7 +44,15 @@ def main():
     import fcntl
     os.makedirs(os.path.join(V, ".build"), exist_ok=True)
     lock = open(os.path.join(V, ".build", "repo.lock"), "w")
-    fcntl.flock(lock, fcntl.LOCK_EX)  # wait for running checks; later ones wait for us
+    waitflag = os.path.join(V, ".build", "repo.wait")
+    open(waitflag, "w").write(str(os.getpid()))
+    try:
+        fcntl.flock(lock, fcntl.LOCK_EX)  # wait for running checks; new ones queue behind the flag
+    finally:
+        try:
+            os.remove(waitflag)
+        except OSError:
+            pass
     os.environ["PCV_SEEDED"] = "1"
     rc, out = sh(["git", "-C", "/repo", "status", "--porcelain", "--untracked-files=no"])
     if out.strip():
